@@ -639,3 +639,85 @@ func CheckSetsLong[S any, E comparable](c *vrep.Ctx, api *SetAPI[S, E], gen func
 		}
 	}
 }
+
+// CheckSetHistories complements the BFS: the BFS identifies a state with the CONTENTS of the
+// registers and extends only the shortest path to it, and it probes every new object
+// destructively - so hidden state that depends on how the contents came about (objects that
+// share storage until one of them is written) is dissolved or never reached. Here every
+// SEQUENCE of up to depth operations from a reduced alphabet (Copy between every pair of
+// registers, Insert/Delete of one element, the binary operations with a nil argument - which
+// return copies - and Union of two registers) is run from a fixed non-empty start on fresh
+// objects, without probes, and all observers are compared with the model after every step.
+func CheckSetHistories[S any, E comparable](c *vrep.Ctx, api *SetAPI[S, E]) {
+	depth := c.Pick(4, 5)
+	m := &setMC[S, E]{api: api, c: c}
+	var ops []setOp
+	for i := 0; i < nregs; i++ {
+		for e := 0; e < 2 && e < len(api.Universe); e++ {
+			ops = append(ops, setOp{kind: "Insert", i: i, elems: []int{e}}, setOp{kind: "Delete", i: i, elems: []int{e}})
+		}
+		for k := 0; k < nregs; k++ {
+			if k != i {
+				ops = append(ops, setOp{kind: "Copy", i: i, k: k})
+				ops = append(ops, setOp{kind: "Union", i: i, j: -1, k: k}, setOp{kind: "Difference", i: i, j: -1, k: k})
+			}
+		}
+		ops = append(ops, setOp{kind: "Union", i: i, j: (i + 1) % nregs, k: i})
+	}
+	m.ops = ops
+	c.R.Rule = fmt.Sprintf("ALL sequences of 1..%d operations from %d (Copy between every pair of the 3 registers, Insert/Delete of one of two elements, Union(nil)/Difference(nil) into another register, Union with the next register in place) from the start r0={0,1}, r1={1}, r2={} on fresh objects, no destructive probes; after every step all observers of all registers are compared with the bitmask model; non-trivial = all sequences", depth, len(ops))
+	c.Bound("depth", depth)
+	c.Bound("operations", len(ops))
+	start := func() (*[nregs]S, mstate) {
+		r := m.fresh()
+		api.Insert(r[0], api.Universe[0], api.Universe[1])
+		api.Insert(r[1], api.Universe[1])
+		return r, mstate{3, 2, 0}
+	}
+	seq := make([]int, 0, depth)
+	var rec func()
+	n := int64(0)
+	reported := map[string]bool{}
+	rec = func() {
+		if len(seq) > 0 {
+			n++
+			if c.Shards > 1 && int(seq[0])%c.Shards != c.Shard {
+				return
+			}
+			r, s := start()
+			msg := ""
+			for _, oi := range seq {
+				m.applyReal(ops[oi], r)
+				s = ops[oi].applyModel(s)
+			}
+			// the prefixes were observed when they were the whole sequence: observe the end only
+			msg = m.observe(r, s)
+			c.Eval()
+			c.R.Nontrivial++
+			c.R.Transitions++
+			if msg != "" {
+				var names []string
+				for _, oi := range seq {
+					names = append(names, ops[oi].String())
+				}
+				key := api.Name + ":history:" + msg
+				if !reported[key] {
+					reported[key] = true
+					c.Violate(key, fmt.Sprintf("%s from r0={0,1} r1={1} r2={} after %v: %s", api.Name, names, msg), nil, msg)
+				}
+				return // do not extend a failing history
+			}
+			c.R.Validated++
+		}
+		if len(seq) == depth {
+			return
+		}
+		for oi := range ops {
+			seq = append(seq, oi)
+			rec()
+			seq = seq[:len(seq)-1]
+		}
+	}
+	rec()
+	c.Sample(map[string]interface{}{"sequences": n})
+}
